@@ -284,6 +284,11 @@ def _decomp_or(c, p, out):
         for x in c.a[1]:
             _decomp_or(x, p, out)
         return
+    if c.op == "call" and call_name(c) in ("builtins.any", "builtins.all") and len(c.a[1]) == 1 and c.a[1][0].op in ("tuple", "list"):
+        # any((t1, t2)) / all([t1, t2]) over a display (or an unrolled comprehension): the tests themselves
+        for x in c.a[1][0].a:
+            _decomp_or(x, p, out)
+        return
     if c.op == "call" and call_name(c) in ("builtins.any", "builtins.all") and len(c.a[1]) == 1 and c.a[1][0].op == "comp" and c.a[1][0].a[0] in ("gen", "list"):
         # any(test(x) for x in xs): the test holds for some element - the guard of a raise inside the loop over xs
         _decomp_or(c.a[1][0].a[1], p, out)
@@ -528,6 +533,8 @@ def _guard_tree(c, p):
         kind, kids = ("or" if call_name(c) == "np.logical_or" else "and"), c.a[1]
     elif c.op == "bin" and c.a[0] in ("|", "&") and all(z.op in ("cmp", "bin", "call", "un") for z in c.a[1:]):
         kind, kids = ("or" if c.a[0] == "|" else "and"), c.a[1:]
+    elif c.op == "call" and call_name(c) in ("builtins.any", "builtins.all") and len(c.a[1]) == 1 and c.a[1][0].op in ("tuple", "list") and c.a[1][0].a:
+        kind, kids = ("or" if call_name(c) == "builtins.any" else "and"), c.a[1][0].a
     elif c.op == "call" and len(c.a[1]) == 1 and c.a[1][0].op == "comp" and c.a[1][0].a[0] in ("gen", "list") and ((call_name(c) == "builtins.any" and p) or (call_name(c) == "builtins.all" and not p)):
         return _guard_tree(c.a[1][0].a[1], p)
     elif c.op == "call" and len(c.a[1]) == 1 and ((call_name(c) == "np.any" and p) or (call_name(c) == "np.all" and not p)):
@@ -866,6 +873,12 @@ def _proves_two(den_arg, pc):
 
                 if b.op == "call" and call_name(b) == "np.zeros" and b.a[1] and b.a[1][0].op == "bin" and b.a[1][0].a[0] == "+" and any(tm.is_const(z, 2) for z in b.a[1][0].a[1:]) and all(interior(k) for k in keys):
                     return "the array lists the positions of 0 in a vector of n + 2 zeros of which only the interior [1:-1] is written: both ends stay 0"
+    # ... or with a display: positions of k in np.array([k, *xs, k])
+    for x in tm.walk(den_arg):
+        if x.op == "cmp" and x.a[0] == "==":
+            for k, arr in ((x.a[1], x.a[2]), (x.a[2], x.a[1])):
+                if k.op == "const" and arr.op == "call" and call_name(arr) in ("np.array", "np.asarray") and arr.a[1] and arr.a[1][0].op in ("list", "tuple") and len(arr.a[1][0].a) >= 2 and arr.a[1][0].a[0] is k and arr.a[1][0].a[-1] is k:
+                    return "the array lists the positions of %s in a vector written with %s at both ends" % (tm.show(k, 1), tm.show(k, 1))
     # the same sentinel idiom with one concatenation: positions where concatenate(([k], xs, [k])) == k
     for x in tm.walk(den_arg):
         if x.op == "cmp" and x.a[0] == "==":
